@@ -52,7 +52,7 @@ fn main() {
                 replay = Some(args.get(i).cloned().unwrap_or_else(|| usage()));
             }
             "--list" => {
-                for p in props::ALL {
+                for p in props::all() {
                     println!("{}", p.id);
                 }
                 return;
